@@ -11,7 +11,7 @@ META = dict(
          "(state x env input); per frame enter/exit alternate, open frames at each tick boundary equal the FULL outlines of running framers and "
          "active auxiliaries (suspended frames included), exit runs are bottom-up and enter runs top-down, nothing stays entered after the run, and "
          "the per-tick sequence of enter/exit/rexit/renter events equals the reference interpreter's.",
-    note="Transit actions are not observable through recorders (ioflo runs them with no script-visible hook), so their position is covered only through marker effects in C20. Reference interpreter: mc/flo/ref.py.",
+    note="Transit actions are not observable through recorders (ioflo runs them with no script-visible hook); their position before the exits is observed through marker effects: marker-guarded transitions whose exit / re-exit / enter actions write the watched share (also in C20). Reference interpreter: mc/flo/ref.py.",
 )
 from mc import core
 from mc.flo import runner
@@ -32,6 +32,11 @@ def family():
     # cloned framers (named / insular / reared): a clone's frames run their rexit / renter / exit actions like the original's
     for label, prog, meta in F.fam_clone_shapes():
         if core.TIER != "quick" or "/under-None/first-None/next-None/" in label:
+            yield label, prog, meta
+    # marker-guarded transitions whose exit / re-exit / enter actions write the watched share: the transit actions
+    # (mark refresh) come first, so that write is seen by the next evaluation of the mark
+    for label, prog, meta in F.fam_markers_exit_writes():
+        if core.TIER != "quick" or "/Atop-None" in label or "/ANone-mk" in label:
             yield label, prog, meta
     if core.TIER == "quick":
         yield from F.fam_forest(2, pairs=True)
@@ -76,7 +81,8 @@ def on_prog(p, idx, label, prog, meta):
         p.outcome("events:%d" % min(9, sum(len(e) for e in rr.events) // 10))
         return False
 
-    st = explore.explore(prog, F.ENV_ALPHABET, depth=6 if core.TIER == "quick" else 8, on_run=on_run)
+    st = explore.explore(prog, meta.get("alphabet") or F.ENV_ALPHABET, depth=6 if core.TIER == "quick" else 8, on_run=on_run,
+                         **(dict(watch=meta["watch"]) if meta.get("watch") else {}))
     p.states += st["states"]
     p.transitions += st["transitions"]
     p.traces += st["runs"]
